@@ -113,3 +113,13 @@ package lastgersync
 //@   modifies gerHas, stmtFail
 //@   ensures[rows-from-that-block-on-dropped] result == nil ==> forall(b, int, gerHas[b] == (old(gerHas)[b] && b < firstReorgedBlock))
 //@   ensures[failure-changes-nothing] result != nil ==> gerHas == old(gerHas)
+
+// ---- the two cursors of the injected-GER index (C16): assumed semantics (A5), texts pinned
+//@ func (p *processor) GetLastProcessedBlock
+//@   props C16
+//@   trusted
+//@   sqltext "SELECT num FROM block ORDER BY num DESC LIMIT 1;"
+//@ func (p *processor) getLatestL1InfoTreeIndex
+//@   props C16
+//@   trusted
+//@   sqltext "SELECT l1_info_tree_index FROM imported_global_exit_root ORDER BY l1_info_tree_index DESC LIMIT 1;"
